@@ -3,7 +3,9 @@
 
 Reads /repo/chain/src/chain.rs (and, for the wrappers that open an LMDB write transaction
 internally, /repo/chain/src/txhashset/txhashset.rs; for the state-serving side
-/repo/chain/src/txhashset/segmenter.rs) and produces, for every `pub fn` of `impl Chain`
+/repo/chain/src/txhashset/segmenter.rs; for the state-receiving side
+/repo/chain/src/txhashset/desegmenter.rs, whose pub fns are emitted inside the caller's
+`pibd_desegmenter.write()` guard) and produces, for every `pub fn` of `impl Chain`
 taking `self`, the brace-scoped sequence of lock acquisitions / releases, with the private
 functions they call on `self` (and free functions of the same file) inlined by call-graph
 closure.  Output: lean/GrinVerif/Gen/Locks.lean, `GV.Gen.lockTable`.
@@ -52,9 +54,11 @@ LOCK_FIELDS = {
     ("OrphanBlockPool", "orphans"): "orph",
     ("OrphanBlockPool", "height_idx"): "hidx",
     ("Segmenter", "txhashset"): "ts",
+    ("Desegmenter", "txhashset"): "ts",
+    ("Desegmenter", "header_pmmr"): "hp",
 }
 SUBOBJECTS = {("Chain", "orphans"): "OrphanBlockPool"}
-STORE_FIELDS = {("Chain", "store")}
+STORE_FIELDS = {("Chain", "store"), ("Desegmenter", "store")}
 CALLBACK_FIELDS = {("Chain", "adapter")}
 
 
@@ -572,7 +576,8 @@ def generate(repo_root, die):
     ts_rs = os.path.join(repo_root, "chain/src/txhashset/txhashset.rs")
     pipe_rs = os.path.join(repo_root, "chain/src/pipe.rs")
     seg_rs = os.path.join(repo_root, "chain/src/txhashset/segmenter.rs")
-    for p in (chain_rs, ts_rs, pipe_rs, seg_rs):
+    des_rs = os.path.join(repo_root, "chain/src/txhashset/desegmenter.rs")
+    for p in (chain_rs, ts_rs, pipe_rs, seg_rs, des_rs):
         if not os.path.exists(p): die(f"gen_locks: missing {p}")
     wrappers = module_batch_wrappers(ts_rs, die)
     if not wrappers:
@@ -626,19 +631,53 @@ def generate(repo_root, die):
         if impl == "Segmenter" and fd.pub and fd.has_self:
             seg_table.append(("Segmenter::" + name, fd.line, st.events((impl, name))))
 
+    # the state-receiving side: impl Desegmenter (desegmenter.rs).  It locks the chain's header_pmmr /
+    # txhashset through the Arcs it was constructed with (Chain::desegmenter hands them over) and opens
+    # batches on the chain's store.  The only way to reach a Desegmenter is the
+    # Arc<RwLock<Option<Desegmenter>>> returned by Chain::desegmenter() (= Chain.pibd_desegmenter): every
+    # caller in /repo (servers/src/common/adapters.rs receive_*_segment, servers/src/grin/sync/state_sync.rs)
+    # calls its methods under `.write()` / `.try_write()` of that lock, so each entry is emitted INSIDE
+    # `+deseg.W … -deseg` (for the order discipline the mode is irrelevant; a caller that clones the
+    # Desegmenter out and calls without the guard runs a subsequence of the entry).
+    dsrc = strip_comments_strings(open(des_rs).read())
+    ditems = tokenize(dsrc, die, "desegmenter.rs")
+    dt = Translator("chain/src/txhashset/desegmenter.rs", ditems, die, wrappers, "txhashset")
+    if "Desegmenter" not in dt.structs:
+        die("gen_locks: struct Desegmenter not found in desegmenter.rs")
+    for f, ty in dt.structs["Desegmenter"].items():
+        if ("RwLock" in ty or "Mutex" in ty) and ("Desegmenter", f) not in LOCK_FIELDS:
+            die(f"gen_locks: Desegmenter.{f} : {ty} is a lock that is not in the fixed alphabet")
+    for (s_, f) in LOCK_FIELDS:
+        if s_ == "Desegmenter" and "RwLock" not in dt.structs["Desegmenter"].get(f, ""):
+            die(f"gen_locks: Desegmenter.{f} is no longer an Arc<RwLock<..>>")
+    if "ChainStore" not in dt.structs["Desegmenter"].get("store", ""):
+        die("gen_locks: Desegmenter.store is no longer the chain's ChainStore")
+    des_table = []
+    for (impl, name), fd in sorted(dt.fns.items(), key=lambda kv: kv[1].line):
+        if impl == "Desegmenter" and fd.pub and fd.has_self:
+            evs = dt.events((impl, name))
+            des_table.append(("Desegmenter::" + name, fd.line, [("acq", "deseg", "W", fd.line)] + evs + [("rel", "deseg")]))
+    for must in ("check_progress", "validate_complete_state", "apply_next_segments", "next_desired_segments",
+                 "add_bitmap_segment", "add_output_segment", "add_rangeproof_segment", "add_kernel_segment",
+                 "check_update_leaf_set_state"):
+        if "Desegmenter::" + must not in [n for n, _, _ in des_table]:
+            die(f"gen_locks: pub fn {must} of impl Desegmenter not found")
+    seg_table = seg_table + des_table
+
     n_acq = sum(1 for _, _, evs in table + seg_table for e in evs if e[0] == "acq")
-    print(f"gen_locks: {len(table)} pub fns of impl Chain (+{len(seg_table)} of impl Segmenter), {n_acq} acquisitions after inlining; "
+    print(f"gen_locks: {len(table)} pub fns of impl Chain (+{len(seg_table) - len(des_table)} of impl Segmenter, +{len(des_table)} of impl Desegmenter), {n_acq} acquisitions after inlining; "
           f"recognised in chain.rs: {tr.recognised}; batch wrappers in txhashset.rs: {wrappers}; skipped (no self): {skipped}",
           file=sys.stderr)
 
     L = []
     L.append("import GrinVerif.Model.Conc")
     L.append("/-! GENERATED by tools/gen_locks.py (plug-in of gen_tables.py) from /repo/chain/src/chain.rs,")
-    L.append("txhashset/txhashset.rs, txhashset/segmenter.rs on every check run. Do not edit.")
+    L.append("txhashset/txhashset.rs, txhashset/segmenter.rs, txhashset/desegmenter.rs on every check run. Do not edit.")
     L.append("")
     L.append("Text-level translation (see the header of tools/gen_locks.py for the exact rules and what they")
     L.append("cannot see).  One entry per `pub fn` of `impl Chain` with a `self` receiver; private methods and")
     L.append("free functions of the file are inlined.  Branches / loop bodies appear once, in source order.")
+    L.append("`Desegmenter::x` = pub fn x of impl Desegmenter as its callers run it: under pibd_desegmenter.write().")
     L.append(f"batch wrappers found in txhashset.rs: {', '.join(wrappers)}")
     L.append(f"skipped (no self receiver, runs before the Chain is shared): {', '.join(skipped) or '-'}")
     L.append("Sites (+lock.mode@line acquire, -lock release, !mark@line):")
